@@ -203,7 +203,7 @@ def cases(rng, tier):
             out.append(op_case(rng, op))
     for _ in range(40 if tier == 'quick' else 1200):
         out.append(dag_case(rng, tier))
-    for w in (rng.sample(BIG, 3) if tier == 'quick' else BIG):
+    for w in (rng.sample(BIG, 3) if tier == 'quick' else BIG) + CORNERS:
         out.append({'kind': 'big', 'which': w, 'seed': rng.randrange(2 ** 31), 'alias': {}, 'lines': ['t modes']})
     for c in out:
         c['desc'] = ' ; '.join(c['lines'])[:600] + f" alias={c['alias']}" + (f" large arrays: {c['which']}" if c['kind'] == 'big' else '')
@@ -237,6 +237,24 @@ def _big(c):
         if any(t._grad is not None and any(np.shares_memory(t._grad, u._grad) for u in a2 if isinstance(u, sg.Tensor) and u._grad is not None) for t in ops1):
             problems.append(f'{name}: gradients of operands of two different calls share memory')
     which = c['which']
+    if which.startswith('bn-one-sided'):
+        # F.batch_norm in evaluation mode with only ONE of running_mean / running_var given (the model's op takes both or neither,
+        # so this corner is observed on the implementation only): every operand, the given statistic included, keeps its bytes
+        C = 3
+        x = T((4, C, 2), True); w = T((C,), True); b = T((C,), True)
+        stat = sg.Tensor(np.abs(rs.randn(C)).astype(np.float32) + 0.5)
+        ops_ = [x, w, b, stat]
+        before = [t.data.tobytes() for t in ops_]; ids = [id(t.data) for t in ops_]
+        kw = {'running_mean': stat} if which.endswith('mean') else {'running_var': stat}
+        for training in (False, False, True, False):
+            y = sg.nn.functional.batch_norm(x, w, b, training=training, momentum=0.3, **kw)
+            if training:      # a training forward MAY move the given statistic (documented); re-snapshot it
+                before[3] = stat.data.tobytes(); ids[3] = id(stat.data)
+                continue
+            y.backward(sg.Tensor(rs.randn(*y.shape).astype(np.float32)))
+            if [t.data.tobytes() for t in ops_] != before or [id(t.data) for t in ops_] != ids:
+                problems.append(f'batch_norm(training=False, only {list(kw)[0]} given): an operand or the given running statistic changed')
+        return problems
     if which == 'fold':
         twice('fold', lambda: (T((1, 2 * 512 * 512, 4), True),), lambda x: sg.nn.functional.fold(x, (1024, 1024), 512, stride=512))
     elif which == 'fold-padded':
@@ -253,6 +271,7 @@ def _big(c):
 
 
 BIG = ['fold', 'fold-padded', 'conv2d', 'max_pool2d', 'unfold', 'matmul']
+CORNERS = ['bn-one-sided-mean', 'bn-one-sided-var']
 
 
 def _exec(c):
